@@ -101,6 +101,22 @@ fn families(tier: &Tier) -> Vec<(Box<dyn Family>, u64)> {
             1,
         ),
         (Box::new(F9 { wide: true }), if q { 64 } else { 4 }),
+        // every package displays the same name (e.g. channel-qualified names that print alike): nodes of
+        // different packages can then end up in one merged group of the message
+        (
+            Box::new(crate::plans::ExpandOwned {
+                label: "all packages display the same name".into(),
+                base: Box::new(Decorated::new("F3 skeletons", skeletons(), 1, false, &|_| true)),
+                mult: 1,
+                f: Box::new(|mut c: Case, _| {
+                    for n in c.u.names.iter_mut() {
+                        n.label = "pkg".into();
+                    }
+                    c
+                }),
+            }),
+            1,
+        ),
     ]
 }
 
